@@ -1,8 +1,11 @@
 #!/bin/bash
 # every seeded change must be detected by the check of its property (rc=1), every benign fixture must stay quiet (rc=0)
+# usage: tools/fixture_sweep.sh [extended-regex on the fixture name]     (several sweeps may run side by side)
 cd "$(dirname "$0")/.."
+PAT="${1:-.}"
 bad=0
 for d in seeded/*/; do n=$(basename $d)
+  echo "$n" | grep -Eq "$PAT" || continue
   while read -r line; do
     echo "$line"
     rc=$(echo "$line" | sed -n 's/.* rc=\([0-9]*\) .*/\1/p')
